@@ -87,8 +87,8 @@ theorem unbatch_prepare {β : Type} (c : BatchCfg) (h : Valid c) (z : β) (xs : 
 
 /-- non-vacuity: 7 states, max batch 3, 2 devices is valid: 2 × 2 × 3 slots, 5 of them padding -/
 example : Valid ⟨7, 3, 2⟩ ∧ bsz ⟨7, 3, 2⟩ = 3 ∧ nb ⟨7, 3, 2⟩ = 2 ∧ npad ⟨7, 3, 2⟩ = 5 := by decide
-example : unbatch ⟨7, 3, 2⟩ (map3 (· * 2) (prepare ⟨7, 3, 2⟩ 0 [1,2,3,4,5,6,7])) = [2,4,6,8,10,12,14] :=
-  unbatch_map_prepare ⟨7, 3, 2⟩ (by decide) 0 (· * 2) [1,2,3,4,5,6,7] rfl
+example : unbatch ⟨7, 3, 2⟩ (map3 (· * 2) (prepare ⟨7, 3, 2⟩ 0 [1,2,3,4,5,6,7])) = [2,4,6,8,10,12,14] := by decide
+example : prepare ⟨7, 3, 2⟩ 0 [1,2,3,4,5,6,7] = [[[1,2,3],[4,5,6]],[[7,0,0],[0,0,0]]] := by decide
 
 end MdpaxV.C18
 
